@@ -51,6 +51,9 @@ impl ProgProperty for C01 {
         }
         None
     }
+    fn probe_upper_bits(&self) -> bool {
+        true
+    }
     fn fuzz_target(&self) -> Option<&'static str> {
         Some("prog_ir")
     }
